@@ -12,9 +12,9 @@ impl Default for Log { fn default() -> Self { Log { n: 0, ev: [None; CAP] } } }
 pub type LogRc = Rc<RefCell<Log>>;
 pub fn new_log() -> LogRc { Rc::new(RefCell::new(Log::default())) }
 
-pub struct Probe { pub log: LogRc, pub finished: bool }
+pub struct Probe { pub log: LogRc, pub finished: bool, pub finish_after: usize }
 impl Probe {
-  pub fn new(log: &LogRc) -> Self { Probe { log: log.clone(), finished: false } }
+  pub fn new(log: &LogRc) -> Self { Probe { log: log.clone(), finished: false, finish_after: usize::MAX } }
   fn push(&self, e: Ev) {
     let mut l = self.log.borrow_mut();
     let n = l.n;
@@ -22,11 +22,14 @@ impl Probe {
     l.n = n + 1;
   }
 }
-impl crate::observer::Observer<u8, u8> for Probe {
+pub trait ErrCode { fn code(&self) -> u8; }
+impl ErrCode for u8 { fn code(&self) -> u8 { *self } }
+impl ErrCode for std::convert::Infallible { fn code(&self) -> u8 { 0 } }
+impl<E: ErrCode> crate::observer::Observer<u8, E> for Probe {
   fn next(&mut self, v: u8) { self.push(Ev::Next(v)) }
-  fn error(self, e: u8) { self.push(Ev::Error(e)) }
+  fn error(self, e: E) { self.push(Ev::Error(e.code())) }
   fn complete(self) { self.push(Ev::Complete) }
-  fn is_finished(&self) -> bool { self.finished }
+  fn is_finished(&self) -> bool { self.finished || self.log.borrow().n >= self.finish_after }
 }
 pub fn count(l: &LogRc) -> usize { l.borrow().n }
 pub fn at(l: &LogRc, i: usize) -> Option<Ev> { l.borrow().ev[i] }
